@@ -146,7 +146,7 @@ def c09(tier, seed):
         varexp_gen(tier, label="Gen_VarExp/unpack-orders", extra=["--repeat", "6" if q else "16", "--every", "2" if q else "1"]),
         # nodes with named AND indexed entries, plain dictionaries and plain lists whose two settings fail in different ways
         GEN("Gen_VarMixed", dict(NameTab="<-TabMixed"), "varexp", replay_args=["--repeat", "12" if q else "40"],
-            label="Gen_VarMixed/unpack-orders", min_cases=500),
+            label="Gen_VarMixed/unpack-orders", min_cases=700),
     ]
 
 
@@ -275,6 +275,10 @@ def c04(tier, seed):
     return reify_stages(["OkIsValid"], [("PtrDefaultSkipsRange", ["OkIsValid"]), ("UncheckedCarriedOver", ["OkIsValid"])], tier) + [
         MC("Gen_Validators", dict(Groups="={}"), invariants=["OkIsValid", "BreakFails"], label="MC_Validators/table"),
         GEN("Gen_Validators", {}, "validators", label="Gen_Validators/kinds-x-tags-x-defaults-x-settings", min_cases=4000),
+        # the validated field reached through every kind of wrapper (pointers to pointers, interface{}-held values, elements of
+        # slices / arrays / maps in all these forms), pre-filled, with the configuration mentioning nothing or only a part
+        MC("Gen_Reach", dict(Groups="={}"), invariants=["NoInvalidAccepted", "DefaultsKept"], label="MC_Reach/reachable-defaults"),
+        GEN("Gen_Reach", {}, "reach", label="Gen_Reach/wrappers-x-defaults-x-settings", min_cases=200),
     ]
 
 
@@ -283,6 +287,10 @@ def c13(tier, seed):
         # which merge policy is ACTIVE for a list: global option vs. struct tags at two levels (a tag wins, also `merge`)
         MC("Gen_TagPol", dict(Groups="={}"), invariants=["TagWins"], label="MC_TagPol/active-policy"),
         GEN("Gen_TagPol", {}, "tagpol", label="Gen_TagPol/global-x-tags-x-lists", min_cases=500),
+        # pre-filled GENERIC containers (map[string]interface{}, interface{}, []interface{} holding nested maps and lists):
+        # only what the configuration mentions changes, at every depth, lists by the active policy
+        MC("Gen_GenericMerge", dict(Groups="={}"), invariants=["OnlyMentioned", "AppendKeepsAll"], label="MC_GenericMerge/only-mentioned"),
+        GEN("Gen_GenericMerge", {}, "generic", label="Gen_GenericMerge/prefilled-x-settings-x-policies", min_cases=50),
     ]
 
 
@@ -291,6 +299,8 @@ def c14(tier, seed):
         MC("Gen_Faults", dict(Groups="={}"), invariants=["SitesExist"], label="MC_Faults/sites"),
         GEN("Gen_Faults", {}, "faults", label="Gen_Faults/types-x-sites-x-fault-kinds", min_cases=20000),
         pack_trace(tier),
+        # copies of one ${...} setting under one root: the error of a failed conversion names the copy that failed
+        GEN("Gen_VarShare", dict(NameTab="<-TabShare", Groups="={}"), "varshare", known_const=None, label="Gen_VarShare/error-names-the-failing-copy", min_cases=8),
     ]
 
 
@@ -359,6 +369,9 @@ def c07(tier, seed):
               label="Trace_Store/sessions"),
         # every target type x validator x shape of setting: Unpack returns
         GEN("Gen_Targets", {}, "targets", label="Gen_Targets/types-x-validators-x-settings", min_cases=10000),
+        # every kind of resolver in every order (one answers with the empty text), Env configurations with references:
+        # every world read in nine ways in a child process
+        GEN("Gen_VarLayers", dict(NameTab="<-TabLayers"), "varexp", label="Gen_VarLayers/envs-x-resolver-kinds", min_cases=15000),
         GO("robust", "fuzz", args=["--mutations", "3000" if q else "40000", "--splice-len", "6" if q else "7"],
            label="robust/mutation+enumeration", min_cases=100000),
     ]
